@@ -97,6 +97,18 @@ def run(run, binfo):
                '\uff20', '\ufe6b', '\uff01', 'not \uff01', '\uff20 or role:nobody', '\uff08@\uff09', '\uff21\uff2e\uff24',
                '{[]}:x', '{{}}:x', '{[1]}:%(a)s', '{None,[0]}:x', 'not {[]}:x', '@ or {{}}:x', '@\u200b', '\u200b@', '@\ufeff', '\uff52\uff4f\uff4c\uff45:admin', '@ \uff4f\uff52 @']
     texts += singles
+    # every check kind the library knows (built in or loaded as an extension) with payloads that are hostile to whatever
+    # that kind may do with its text when the rule is LOADED: loading a string never fails
+    from oslo_policy import _checks
+    kinds = sorted(k for k in list(_checks.registered_checks) + list(_checks.get_extensions()) if k) + ['x', 'HTTP', 'Role']
+    payloads = ['', '[', ']', '//[::1/p', '//host]/p', '//[host]/p', '//[::1]:x/p', '//ex\u2100mple/p', '//h:99999999/p',
+                '%', '%(', '%(x', '%(x)', '%d', '%(x)d', '%%', '\x00', '//', '///', '//@', '//:@:/', '//\uff0f/',
+                '{', '}', '{}', '{0}', '\\', '//h/\ud7ff', 'a:b:c', '::', '//[', '//]', '//[]', '//[v1.x]/', '//[::1%25eth0]/']
+    for kd in kinds:
+        for pl in payloads:
+            texts.append('%s:%s' % (kd, pl))
+        texts.append('not %s:%s' % (kd, payloads[3]))
+        texts.append('@ or %s:%s' % (kd, payloads[5]))
     # corruptions of valid rules
     ncorr = 1500 if tier == 'quick' else 30000
     names = ['r%d' % i for i in range(6)]
